@@ -2,6 +2,7 @@ package main
 
 import (
 	"fmt"
+	"time"
 	"go/types"
 	"math/big"
 	"strings"
@@ -343,6 +344,31 @@ func init() {
 	exact["(time.Time).Sub"] = func(e *Engine, st *State, fn *ssa.Function, args []Value, retTo *ssa.Call) (Value, bool) {
 		return timeSub(args[0].(*StructV), args[1].(*StructV)), true
 	}
+	// Duration.Hours/Minutes/Seconds: the real stdlib body is executed (integer div/rem, int->float64, fp.div, fp.add);
+	// the result is wrapped so that a later comparison with a float constant can be replaced by the integer comparison
+	// d >= c*unit - but only after that equivalence has been PROVED on this very FP term for all 64-bit d (durLemma).
+	for _, unit := range []string{"Hours", "Minutes", "Seconds"} {
+		unit := unit
+		exact["(time.Duration)."+unit] = func(e *Engine, st *State, fn *ssa.Function, args []Value, retTo *ssa.Call) (Value, bool) {
+			d := args[0].(*Term)
+			if durExec {
+				return nil, false // plain execution (used while proving the lemma)
+			}
+			durExec = true
+			f := e.callSync(st, FuncV{Fn: fn}, []Value{d})
+			durExec = false
+			ft, ok := f.(*Term)
+			if !ok || st.status != Running {
+				return nil, true
+			}
+			return TS.intern(&Term{op: "durcall", sort: FPSort, name: unit, args: []*Term{d, ft}}), true
+		}
+	}
+	exact[api+"Now"] = exact["time.Now"]
+	exact[api+"Since"] = func(e *Engine, st *State, fn *ssa.Function, args []Value, retTo *ssa.Call) (Value, bool) {
+		now := e.timeNow(st, fn.Signature.Params().At(0).Type()).(*StructV)
+		return timeSub(now, args[0].(*StructV)), true
+	}
 	exact["time.Since"] = func(e *Engine, st *State, fn *ssa.Function, args []Value, retTo *ssa.Call) (Value, bool) {
 		now := e.timeNow(st, fn.Signature.Params().At(0).Type()).(*StructV)
 		return timeSub(now, args[0].(*StructV)), true
@@ -409,4 +435,114 @@ func timeSub(t, u *StructV) Value {
 	minD := ConstBV(new(big.Int).Neg(new(big.Int).Lsh(big.NewInt(1), 63)), 128)
 	sat := Ite(BVSgt(d, maxD), maxD, Ite(BVSlt(d, minD), minD, d))
 	return Extract(63, 0, sat)
+}
+
+var durExec bool
+
+type durKey struct {
+	unit string
+	op   string
+	c    float64
+}
+
+var durLemmas = map[durKey]*big.Int{} // proven: (unit(d) op c) <=> (d op' T); nil entry = not provable
+
+var unitNs = map[string]float64{"Hours": 3.6e12, "Minutes": 6e10, "Seconds": 1e9}
+
+// durCompare tries to replace `durcall(d) op c` by an integer comparison. Returns nil if no proven lemma applies.
+func (e *Engine) durCompare(op string, x, y *Term) *Term {
+	if x.op != "durcall" {
+		return nil
+	}
+	c, ok := fpVals[y]
+	if !ok {
+		return nil
+	}
+	k := durKey{x.name, op, c}
+	T, seen := durLemmas[k]
+	if !seen {
+		T = e.proveDurLemma(k, x)
+		durLemmas[k] = T
+	}
+	if T == nil {
+		return nil
+	}
+	d, lim := x.args[0], ConstBV(T, 64)
+	switch op {
+	case "fp.geq":
+		return BVSge(d, lim)
+	case "fp.gt":
+		return BVSgt(d, lim)
+	case "fp.lt":
+		return BVSlt(d, lim)
+	case "fp.leq":
+		return BVSle(d, lim)
+	}
+	return nil
+}
+
+// proveDurLemma: for ALL 64-bit d, (F(d) op c) <=> (d op T) with T = c*unit, where F is the FP term obtained by
+// executing the real time.Duration method symbolically. Decided by a fresh solver; nil if c*unit is not an integer
+// or the solver does not answer unsat.
+func (e *Engine) proveDurLemma(k durKey, sample *Term) *big.Int {
+	u := k.c * unitNs[k.unit]
+	if u != float64(int64(u)) || u <= 0 {
+		return nil
+	}
+	T := big.NewInt(int64(u))
+	// re-instantiate F on a fresh variable by substitution d -> lemma var
+	dv := Var("lemma.d."+k.unit, BV(64))
+	F := substTerm(sample.args[1], sample.args[0], dv, map[int]*Term{})
+	var fp, iv *Term
+	lim := ConstBV(T, 64)
+	switch k.op {
+	case "fp.geq":
+		fp, iv = mk("fp.geq", BoolSort, F, FPConst(k.c)), BVSge(dv, lim)
+	case "fp.gt":
+		fp, iv = mk("fp.gt", BoolSort, F, FPConst(k.c)), BVSgt(dv, lim)
+	case "fp.lt":
+		fp, iv = mk("fp.lt", BoolSort, F, FPConst(k.c)), BVSlt(dv, lim)
+	case "fp.leq":
+		fp, iv = mk("fp.leq", BoolSort, F, FPConst(k.c)), BVSle(dv, lim)
+	default:
+		return nil
+	}
+	s, err := newSolverMode("z3", 120000, false)
+	if err != nil {
+		return nil
+	}
+	defer s.Close()
+	t0 := time.Now()
+	r := s.Check([]*Term{Not(Eq(fp, iv))})
+	e.modelsUsed[fmt.Sprintf("lemma: Duration.%s() %s %v <=> d %s %s ns: %v in %.1fs (proved on the SSA-executed stdlib body, all 64-bit d)", k.unit, k.op, k.c, k.op[3:], T, r, time.Since(t0).Seconds())] = true
+	if r != Unsat {
+		return nil
+	}
+	return T
+}
+
+func substTerm(t, from, to *Term, memo map[int]*Term) *Term {
+	if t == from {
+		return to
+	}
+	if len(t.args) == 0 {
+		return t
+	}
+	if r, ok := memo[t.id]; ok {
+		return r
+	}
+	args := make([]*Term, len(t.args))
+	changed := false
+	for i, a := range t.args {
+		args[i] = substTerm(a, from, to, memo)
+		if args[i] != a {
+			changed = true
+		}
+	}
+	r := t
+	if changed {
+		r = TS.intern(&Term{op: t.op, sort: t.sort, args: args, val: t.val, name: t.name, p1: t.p1, p2: t.p2})
+	}
+	memo[t.id] = r
+	return r
 }
